@@ -23,6 +23,11 @@
 //	  resp    = <status>:<bytes>:<delay-ms>[:<rdv>]   rdv = 1: the target answers a request only when as many requests are in
 //	          flight at it as the pool has instances (or as are still to come), so the instances shoot in step, round by round
 //
+//	keepalive = <0|1>[:<gun options>]   gun options under which Shoot touches the request / response, see opts.go (answlog,
+//	          httptrace dump / trace, auto-tag, debug logger, redirect); passes = <n>[p]  p: delivered through the provider option
+//	          `passes: n` with `limit: 0`;  an E item's scheme field may carry the suffix c (raw only): the body is written with
+//	          Transfer-Encoding: chunked instead of a Content-Length
+//
 //	tr <salt>   -> one token <Struct>.<Field>:<configured>:<built> per field of phttp.TransportConfig and phttp.DialerConfig (see runTransport)
 //	  item = H k v                                   an in-file "[k: v]" line (uri, uripost only)
 //	       | E method uri scheme urlhost tag body nh {k v}*nh
@@ -72,7 +77,6 @@ import (
 	"github.com/yandex/pandora/core/engine"
 	coreimport "github.com/yandex/pandora/core/import"
 	"github.com/yandex/pandora/lib/monitoring"
-	"go.uber.org/zap"
 
 	"verifharness/internal/vh"
 )
@@ -91,6 +95,7 @@ type item struct {
 	tag    string
 	body   []byte
 	hdrs   []kv
+	chunked bool // raw only: the entry's body is written with Transfer-Encoding: chunked instead of a Content-Length
 }
 
 type wcase struct {
@@ -113,6 +118,8 @@ type wcase struct {
 	rsize   int
 	cfg     []kv
 	items   []item
+	opts    gunOpts // gun options under which Shoot touches the request / response (opts.go)
+	byPasses bool   // the file is delivered `passes` times through the provider option `passes` (limit 0) instead of `limit`
 }
 
 func parseCase(line string) (*wcase, error) {
@@ -147,7 +154,10 @@ func parseCase(line string) (*wcase, error) {
 		}
 		c.format = next()
 		c.ssl = next() == "1"
-		c.ka = next() == "1"
+		var kaOK bool
+		if c.ka, c.opts, kaOK = parseKA(next()); !kaOK {
+			panic("bad keep-alive / gun options field")
+		}
 		instf := strings.SplitN(next(), ":", 2)
 		var ierr error
 		if c.inst, ierr = strconv.Atoi(instf[0]); ierr != nil {
@@ -174,7 +184,15 @@ func parseCase(line string) (*wcase, error) {
 		c.pools = num()
 		c.late = next() == "1"
 		c.pause = num()
-		c.passes = num()
+		pf := next()
+		if strings.HasSuffix(pf, "p") {
+			c.byPasses = true
+			pf = strings.TrimSuffix(pf, "p")
+		}
+		var perr2 error
+		if c.passes, perr2 = strconv.Atoi(pf); perr2 != nil {
+			panic(perr2)
+		}
 		if c.passes < 1 {
 			c.passes = 1
 		}
@@ -199,6 +217,10 @@ func parseCase(line string) (*wcase, error) {
 				it.method = str()
 				it.uri = str()
 				it.scheme = next()
+				if strings.HasSuffix(it.scheme, "c") {
+					it.chunked = true
+					it.scheme = strings.TrimSuffix(it.scheme, "c")
+				}
 				it.host = str()
 				it.tag = str()
 				it.body = vh.UnHex(next())
@@ -283,11 +305,22 @@ func renderFile(c *wcase, decoy string) []byte {
 			for _, h := range it.hdrs {
 				fmt.Fprintf(&r, "%s: %s\r\n", h.k, strings.ReplaceAll(h.v, decoyToken, decoy))
 			}
-			if len(it.body) > 0 {
-				fmt.Fprintf(&r, "Content-Length: %d\r\n", len(it.body))
+			switch {
+			case len(it.body) > 0 && it.chunked:
+				// two chunks (when there are two bytes) and the terminating one
+				r.WriteString("Transfer-Encoding: chunked\r\n\r\n")
+				h := (len(it.body) + 1) / 2
+				fmt.Fprintf(&r, "%x\r\n%s\r\n", h, it.body[:h])
+				if len(it.body) > h {
+					fmt.Fprintf(&r, "%x\r\n%s\r\n", len(it.body)-h, it.body[h:])
+				}
+				r.WriteString("0\r\n\r\n")
+			case len(it.body) > 0:
+				fmt.Fprintf(&r, "Content-Length: %d\r\n\r\n", len(it.body))
+				r.Write(it.body)
+			default:
+				r.WriteString("\r\n")
 			}
-			r.WriteString("\r\n")
-			r.Write(it.body)
 			fmt.Fprintf(&b, "%d %s\n%s\n", r.Len(), it.tag, r.String())
 		}
 	}
@@ -356,6 +389,7 @@ type recorder struct {
 	mu     sync.Mutex
 	recs   []record
 	conns  map[string]bool // connections seen by the target (remote addresses)
+	follow int             // requests for followPath: the gun's client followed a redirect of the target
 	newc   int             // ConnState(StateNew) events at the target
 }
 
@@ -367,6 +401,15 @@ var (
 func handler(srv string, own *recorder) http.Handler {
 	return http.HandlerFunc(func(w http.ResponseWriter, r *http.Request) {
 		body, _ := io.ReadAll(r.Body)
+		if r.URL.Path == followPath && own != nil {
+			// the follow-up of a redirect (gun option redirect: true): not an ammo entry; counted, answered at once
+			own.mu.Lock()
+			own.follow++
+			own.mu.Unlock()
+			w.WriteHeader(200)
+			_, _ = w.Write([]byte("ok"))
+			return
+		}
 		rec := own
 		if rec == nil { // the shared decoy: whoever is the current sequential case
 			curMu.Lock()
@@ -393,7 +436,7 @@ func handler(srv string, own *recorder) http.Handler {
 		}
 		w.Header().Set("Content-Type", "text/plain")
 		if status == 301 {
-			w.Header().Set("Location", "/elsewhere")
+			w.Header().Set("Location", followPath)
 		}
 		w.WriteHeader(status)
 		if r.Method != "HEAD" && status != 204 && status != 304 && size > 0 {
@@ -642,6 +685,9 @@ func runCaseOnce(line string) string {
 			target = "localhost:" + ports[k]
 		}
 		ammo := map[string]any{"type": typ, "file": path, "limit": total, "preload": c.preload}
+		if c.byPasses {
+			ammo["limit"], ammo["passes"] = 0, c.passes
+		}
 		if len(hdrs) > 0 {
 			ammo["headers"] = hdrs
 		}
@@ -652,6 +698,7 @@ func runCaseOnce(line string) string {
 		if c.scBlock {
 			gun["shared-client"] = map[string]any{"enabled": c.scOn, "client-number": c.scNum}
 		}
+		c.opts.apply(gun)
 		pools = append(pools, map[string]any{
 			"id":     fmt.Sprintf("p%d", k),
 			"ammo":   ammo,
@@ -693,7 +740,7 @@ func runCaseOnce(line string) string {
 			return g, err
 		}
 	}
-	eng := engine.New(zap.NewNop(), metrics, conf.Engine)
+	eng := engine.New(c.opts.logger(), metrics, conf.Engine)
 	ctx, cancel := context.WithTimeout(context.Background(), 20*time.Second+time.Duration(total*c.pause)*time.Millisecond)
 	runErr := eng.Run(ctx)
 	cancel()
@@ -737,6 +784,14 @@ func runCaseOnce(line string) string {
 	run := "ok"
 	if runErr != nil {
 		run = "err"
+	}
+	// a client that follows redirects asks for followPath once per 301 answer; any other client never does
+	wantFollow := 0
+	if c.opts.redirect && c.rstatus == 301 {
+		wantFollow = nT
+	}
+	if run == "ok" && rec.follow != wantFollow {
+		run = fmt.Sprintf("followups-%d-of-%d", rec.follow, wantFollow)
 	}
 	gunsMu.Lock()
 	var cls []string
